@@ -125,6 +125,9 @@ func (g *G) simpleStmt(depth int) *Node {
 	case k == 14:
 		return &Node{Kind: "StmtNop", Parts: parts(t(";"))}
 	}
+	if g.O.Common {
+		return g.exprStmt(depth) // the PHP 5 goto label span is a recorded divergence
+	}
 	// goto
 	lbl := g.identifier(g.ident())
 	return &Node{Kind: "StmtGoto", Kids: []Kid{one("Label", lbl)}, Parts: parts(g.kw("goto"), lbl, g.semi()), Flags: FKnownDiff}
